@@ -1,2 +1,2 @@
 // module-level hints for the extracted code of units U2/U3 (trusted axioms declared in std_specs.rs / standins_fn.rs)
-broadcast use {axiom_bool_bitand, axiom_bool_bitor, axiom_pattern_string, group_f64, axiom_f64_obeys, vstd::std_specs::btree::group_btree_axioms, axiom_string_key_model, axiom_string_of, axiom_key_order};
+broadcast use {axiom_bool_bitand, axiom_bool_bitor, axiom_pattern_string, group_f64, axiom_f64_obeys, vstd::std_specs::btree::group_btree_axioms, axiom_string_key_model, axiom_string_of, axiom_key_order, lemma_vv_map_empty, lemma_vv_seq_empty};
